@@ -667,7 +667,7 @@ Proof.
       assert (Hnr : st x <> Running).
       { unfold Krow in HKx. rewrite Hq in HKx. tauto. }
       destruct (Krow_not_running x HKx Hnr) as [Hc Hh].
-      destruct (N.eqb (sig x) g).
+      destruct (outs_match (sig x) g).
       * (* full recycle *)
         unfold recycle_full in Es. destruct (lose_product (db s) x) as [d0|] eqn:El; [|discriminate].
         inversion Es; subst; clear Es. unfold with_db.
@@ -862,7 +862,7 @@ Proof.
     destruct (find_label l (db s)) as [i|] eqn:Ef.
     + destruct (nth_error (db s) i) as [x|] eqn:En; [|discriminate].
       destruct (attached x); [discriminate|]. destruct (Nat.eqb i p); [discriminate|].
-      destruct (N.eqb (sig x) g).
+      destruct (outs_match (sig x) g).
       * unfold recycle_full in Es. destruct (lose_product (db s) x) as [d0|] eqn:El; [|discriminate].
         inversion Es; subst; clear Es. simpl.
         apply Forall_upd.
@@ -1144,7 +1144,7 @@ Qed.
 (* Witnesses: recycling a step whose command is executing breaks the full statements           *)
 (* ------------------------------------------------------------------------------------------ *)
 
-Definition plan_row : row := mkRow 0 None true Running 0 false [] 0 false need_PLAN true [mkCmd [] 0].
+Definition plan_row : row := mkRow 0 None true Running 0 false [] [] false need_PLAN true [mkCmd [] 0].
 Definition sys0 : sys := mkSys [plan_row] [(1%N, 1%N)] need_OPTIONAL.
 Definition meta_all : event := ESetMeta (repeat (false, need_DEFAULT, true) 8).
 
